@@ -64,6 +64,7 @@ type produceRec struct {
 	durable     bool // was found in S3 when acknowledged
 	task        string // broker-side request task (write attribution)
 	appendSeen, heldAtAppend bool // C19: lease state at the step AppendBatch ran
+	heldAtAck   bool // lease state at the step the reply was produced
 	leaseNote   string
 }
 
@@ -154,11 +155,10 @@ func (n *bnode) start() {
 		store = es
 	}
 	h := newHandler(store, s3c, info, discardLogger())
-	if w.etcdMode() {
-		ttl := int(w.cfg("lease_ttl_s", 10))
-		idStr := fmt.Sprintf("%d", n.id)
-		h.leaseManager = metadata.NewPartitionLeaseManager(n.etcdStore.EtcdClient(), metadata.PartitionLeaseConfig{BrokerID: idStr, LeaseTTLSeconds: ttl, Logger: discardLogger()})
-		h.groupLeaseManager = metadata.NewGroupLeaseManager(n.etcdStore.EtcdClient(), metadata.GroupLeaseConfig{BrokerID: idStr, LeaseTTLSeconds: ttl, Logger: discardLogger()})
+	if w.etcdMode() && (h.leaseManager == nil || h.groupLeaseManager == nil) {
+		// newHandler wires both lease managers itself (default TTL, 10 s) when given an EtcdStore
+		w.sim.Fail("HARNESS", "setup", "newHandler did not create lease managers for an EtcdStore")
+		return
 	}
 	h.logConfig.Buffer = storage.WriteBufferConfig{
 		MaxBytes:      int(w.cfg("buf_max_bytes", 4<<20)),
